@@ -3021,6 +3021,8 @@ CALSCALE:GREGORIAN\n";
 
 	/* tell the bufferer we want to write to WHITHER */
 	fdbang(whither);
+	/* errors from now on are this calendar's */
+	fd_aux.err = 0;
 	/* definitely the head of the header */
 	fdwrite(hdr, strlenof(hdr));
 
@@ -3061,7 +3063,7 @@ CALSCALE:GREGORIAN\n";
 	return;
 }
 
-void
+int
 echs_icalify_fini(int whither)
 {
 	static const char ftr[] = "\
@@ -3073,7 +3075,8 @@ END:VCALENDAR\n";
 	fdwrite(ftr, strlenof(ftr));
 	/* that's the last thing in line, just send it off */
 	fdflush();
-	return;
+	/* tell them if something got lost on the way */
+	return fd_aux.err ? -1 : 0;
 }
 
 /* evical.c ends here */
